@@ -22,7 +22,7 @@ CONSTANTS Obj,        \* object identifiers
                       \* long simulated behaviours that are replayed step by step.  FALSE: any acceptable subset.
 
 VARIABLES heap,       \* Obj -> continuum value or NoObj
-          out         \* outcome of the last call: "ok" or the exception class
+          out         \* outcome of the last call: "ok" or "rejected" (the call raised; the statement fixes no exception class)
 
 cvars == <<heap, out>>
 
@@ -93,7 +93,7 @@ New(o) ==
 Add(o, a, s, e, l) ==
     /\ o \in Live
     /\ IF s >= e /\ Mutant # "add_accepts_empty"
-         THEN heap' = heap /\ out' = "ValueError"          \* zero-length (empty) segments always rejected
+         THEN heap' = heap /\ out' = "rejected"            \* zero-length (empty) segments always rejected (whatever the exception class)
          ELSE heap' = [heap EXCEPT ![o] = AddTo(@, a, s, e, l)] /\ out' = "ok"
     /\ Emit("add", <<o, a, s, e, l>>)
 
@@ -117,7 +117,7 @@ Remove(o, a, s, e, l) ==
                                               THEN ResetVal([@ EXCEPT !.units = @ \ {<<a, s, e, l>>}])
                                               ELSE [@ EXCEPT !.units = @ \ {<<a, s, e, l>>}]]   \* bounds, cats kept
               /\ out' = "ok"
-         ELSE heap' = heap /\ out' = "KeyError"
+         ELSE heap' = heap /\ out' = "rejected"
     /\ Emit("remove", <<o, a, s, e, l>>)
 
 (* a copy carries annotators, units, bounds, window size; its categories cover the labels *)
